@@ -259,7 +259,7 @@ def pad_c_text_vs_real(rep, exe, cs, expect, n):
     mc = []
     for i in idx:
         buf = bytes.fromhex(cs.cases[i][0].split()[2])
-        mc.append(("Avtp_Vss_Pad", [65536, cs.tags[i]["len"]], list(buf), []))
+        mc.append(("Avtp_Vss_Pad", [65536, cs.tags[i]["len"]], list(buf), [], "src/avtp/acf/custom/Vss.c"))
     res = cirrun.mem_cases(mc, "cirrun_pad")
     nbad = 0
     for k, i in enumerate(idx):
